@@ -131,6 +131,74 @@ WellFormed(kind, b) ==
 \* the checksum covers the length of the whole artifact
 CoversLength(kind) == kind = "lru"
 
+\* ------------------------------------------------------- SHA-256 (FIPS 180-4)
+(* Needed for one thing: the check value of a V1 MIME response is the lower-case hex SHA-256 of the bytes
+   before the "Checksum: " label.  Words are W32 pairs <<hi16, lo16>>.  Constants: the first 32 bits of the
+   fractional parts of the cube roots (K) / square roots (H0) of the first primes. *)
+ShaK == <<
+   <<17034, 12184>>, <<28983, 17553>>, <<46528, 64463>>, <<59829, 56229>>,
+   <<14678, 49755>>, <<23025, 4593>>, <<37439, 33444>>, <<43804, 24277>>,
+   <<55303, 43672>>, <<4739, 23297>>, <<9265, 34238>>, <<21772, 32195>>,
+   <<29374, 23924>>, <<32990, 45566>>, <<39900, 1703>>, <<49563, 61812>>,
+   <<58523, 27073>>, <<61374, 18310>>, <<4033, 40390>>, <<9228, 41420>>,
+   <<11753, 11375>>, <<19060, 33962>>, <<23728, 43484>>, <<30457, 35034>>,
+   <<38974, 20818>>, <<43057, 50797>>, <<45059, 10184>>, <<48985, 32711>>,
+   <<50912, 3059>>, <<54695, 37191>>, <<1738, 25425>>, <<5161, 10599>>,
+   <<10167, 2693>>, <<11803, 8504>>, <<19756, 28156>>, <<21304, 3347>>,
+   <<25866, 29524>>, <<30314, 2747>>, <<33218, 51502>>, <<37490, 11397>>,
+   <<41663, 59553>>, <<43034, 26187>>, <<49739, 35696>>, <<51052, 20899>>,
+   <<53650, 59417>>, <<54937, 1572>>, <<62478, 13701>>, <<4202, 41072>>,
+   <<6564, 49430>>, <<7735, 27656>>, <<10056, 30540>>, <<13488, 48309>>,
+   <<14620, 3251>>, <<20184, 43594>>, <<23452, 51791>>, <<26670, 28659>>,
+   <<29839, 33518>>, <<30885, 25455>>, <<33992, 30740>>, <<36039, 520>>,
+   <<37054, 65530>>, <<42064, 27883>>, <<48889, 41975>>, <<50801, 30962>> >>
+ShaH0 == <<
+   <<27145, 58983>>, <<47975, 44677>>, <<15470, 62322>>, <<42319, 62778>>,
+   <<20750, 21119>>, <<39685, 26764>>, <<8067, 55723>>, <<23520, 52505>> >>
+WRotr(a, n) == WRotl(a, 32 - n)                          \* 0 < n < 32
+WShr(a, n)  == IF n < 16 THEN <<a[1] \div (2 ^ n), ((a[1] % (2 ^ n)) * (2 ^ (16 - n))) + (a[2] \div (2 ^ n))>>
+               ELSE <<0, a[1] \div (2 ^ (n - 16))>>
+WX3(a, b, c) == WXor(WXor(a, b), c)
+ShaCh(x, y, z)  == WXor(WAnd(x, y), WAnd(WNot(x), z))
+ShaMaj(x, y, z) == WX3(WAnd(x, y), WAnd(x, z), WAnd(y, z))
+ShaBS0(x) == WX3(WRotr(x, 2), WRotr(x, 13), WRotr(x, 22))
+ShaBS1(x) == WX3(WRotr(x, 6), WRotr(x, 11), WRotr(x, 25))
+ShaSS0(x) == WX3(WRotr(x, 7), WRotr(x, 18), WShr(x, 3))
+ShaSS1(x) == WX3(WRotr(x, 17), WRotr(x, 19), WShr(x, 10))
+WFromBE(b0, b1, b2, b3) == <<b0 * 256 + b1, b2 * 256 + b3>>
+\* message schedule of the block at 0-based offset off of the padded message p
+ShaSched(p, off) ==
+  LET RECURSIVE F(_, _)
+      F(t, w) == IF t > 64 THEN w
+                 ELSE F(t + 1, Append(w, IF t <= 16 THEN WFromBE(p[off + 4 * t - 3], p[off + 4 * t - 2], p[off + 4 * t - 1], p[off + 4 * t])
+                                         ELSE WAdd(WAdd(ShaSS1(w[t - 2]), w[t - 7]), WAdd(ShaSS0(w[t - 15]), w[t - 16]))))
+  IN F(1, <<>>)
+\* one round on s = <<a,b,c,d,e,f,g,h>>
+ShaRound(s, k, w) ==
+  LET t1 == WAdd(WAdd(WAdd(s[8], ShaBS1(s[5])), WAdd(ShaCh(s[5], s[6], s[7]), k)), w)
+      t2 == WAdd(ShaBS0(s[1]), ShaMaj(s[1], s[2], s[3]))
+  IN <<WAdd(t1, t2), s[1], s[2], s[3], WAdd(s[4], t1), s[5], s[6], s[7]>>
+ShaBlock(h, p, off) ==
+  LET w == ShaSched(p, off)
+      RECURSIVE R(_, _)
+      R(t, s) == IF t > 64 THEN s ELSE R(t + 1, ShaRound(s, ShaK[t], w[t]))
+      s == R(1, h)
+  IN [i \in 1..8 |-> WAdd(h[i], s[i])]
+ShaPad(m) ==
+  LET n == Len(m)
+      zeros == (55 - n) % 64
+  IN m \o <<128>> \o IgZeros(zeros) \o <<0, 0, 0, 0>> \o WToBE(WOfNat(8 * n))      \* n < 2^28
+Sha256(m) ==
+  LET p == ShaPad(m)
+      RECURSIVE B(_, _)
+      B(off, h) == IF off >= Len(p) THEN h ELSE B(off + 64, ShaBlock(h, p, off))
+      h == B(0, ShaH0)
+  IN WToBE(h[1]) \o WToBE(h[2]) \o WToBE(h[3]) \o WToBE(h[4]) \o WToBE(h[5]) \o WToBE(h[6]) \o WToBE(h[7]) \o WToBE(h[8])
+HexDigit(x) == IF x < 10 THEN 48 + x ELSE 87 + x                \* lower case
+HexOf(bs) == LET RECURSIVE F(_)
+                 F(i) == IF i > Len(bs) THEN <<>> ELSE <<HexDigit(bs[i] \div 16), HexDigit(bs[i] % 16)>> \o F(i + 1)
+             IN F(1)
+
 \* ------------------------------------------------- what the check values are
 Bit31 == <<32768, 0>>
 UpdGuardOK(b, o)   == WFromLE(IgB(b, o), IgB(b, o + 1), IgB(b, o + 2), IgB(b, o + 3)) = WOr(HashLittle(IgSub(b, o + 4, o + 23), WZero), Bit31)
@@ -144,7 +212,7 @@ ProduceOK(kind, b, x) ==
     [] kind = "updsec" -> \A i \in UpdSecSlots(b) : UpdGuardOK(b, 24 * i)
     [] kind = "lhdr"   -> /\ WFromLE(IgB(b, 22), IgB(b, 23), IgB(b, 24), IgB(b, 25)) = HashLittle(IgSub(b, 0, 22), LhdrSeed)
                           /\ \A j \in 0..3 : IgB(b, 26 + j) = LhdrLane(b, x.base, j)
-    [] kind = "mime"   -> TRUE     \* SHA-256 is not transcribed: the region is taken from the format's documentation only
+    [] kind = "mime"   -> LET c == MimeCheckPos(b) IN IgSub(b, c + 10, c + 74) = HexOf(Sha256(IgSub(b, 0, c)))
 
 \* ---------------------------------------------------------- judgement rule
 InRegion(R, pos)    == \E r \in R : r.lo <= pos /\ pos < r.hi
